@@ -31,6 +31,7 @@ THEOREMS = [
     "C11.early_tmp_left_create_table_tail",
     "C11.early_tmp_left_rolled_back",
     "C11.fault_upto_drop_unchanged",
+    "C11.explicit_begin_rollback_restores",
     "C11.early_tmp_gone_partial",
 ]
 PARTIAL = {
@@ -43,13 +44,17 @@ PARTIAL = {
     "statement of create_table, or when the failure is injected at the INSERT before pysqlite opened its implicit transaction",
 }
 TRUSTED = c10mod.TRUSTED + [
-    "pysqlite legacy transaction control (implicit BEGIN before DML only, DDL neither begins nor commits; Connection.begin() emits nothing) "
-    "is modelled in Model.Batch.Conn and validated on every run; other drivers / autocommit settings are outside the theorems",
+    "three connection modes are modelled in Model.Batch.Conn and validated on every run against the real driver: pysqlite legacy transaction "
+    "control (implicit BEGIN before DML only, DDL neither begins nor commits; Connection.begin() emits nothing), isolation_level=AUTOCOMMIT, "
+    "and the BEGIN recipe (driver isolation_level=None + BEGIN on SQLAlchemy's begin event); early_orig_intact / retrievable / superset / "
+    "success_no_tmp / early_tmp_gone / fault_upto_drop_unchanged are proved for all three, the counterexamples and exactness theorems for the "
+    "modes that start outside a transaction; `transactional_ddl` is a field of the plan that the model never reads (the unchanged _create "
+    "does not consult it) - the theorems hold for both values and the harness runs both",
     "fault model: a fault raises before the statement runs (before_cursor_execute); a statement that takes effect and then reports failure "
     "is not modelled",
 ]
 RULE = (
-    "C10's table/row/op generators; for each case the fault-free run gives the statement count n, then a fault is injected at "
+    "C10's table/row/op generators x connection mode (pysqlite legacy / AUTOCOMMIT / BEGIN recipe) x transactional_ddl option (default / True); for each case the fault-free run gives the statement count n, then a fault is injected at "
     "k = 0..n-1 (quick: 3 sampled k per case, thorough: every k) under each scope (none / outer / swallow); natural failures come from the "
     "fault-free runs.  Non-trivial = the run failed after at least one statement and the table had >= 1 row; distinct by "
     "(statement kinds up to the failure, outcome, scope, recreate, copy_from)"
@@ -59,7 +64,7 @@ ASSUMPTIONS = c10mod.ASSUMPTIONS + ["single fault: only one statement fails (the
 
 def input_of(case):
     return {"table": case["table"], "ops": case["ops"], "recreate": case["recreate"], "copy_from": case["copy_from"],
-            "fault": case["fault"], "scope": case["scope"]}
+            "fault": case["fault"], "scope": case["scope"], "iso": case.get("iso", "default"), "tddl": case.get("tddl")}
 
 
 def stmt_kinds(stmts):
@@ -105,6 +110,8 @@ def one(ctx, case, pending):
     ctx.evaluation()
     ctx.hist("outcome", bc.canon_outcome(r["outcome"]) or "ok")
     ctx.hist("scope", case["scope"])
+    ctx.hist("connection", case.get("iso", "default"))
+    ctx.hist("transactional_ddl", "default" if case.get("tddl") is None else str(case.get("tddl")))
     ctx.hist("fault", "none" if case["fault"] is None else ("k=%d" % case["fault"] if case["fault"] < 8 else "k>=8"))
     if r["outcome"] != "ok":
         last = r["stmts"][-1].split(":")[0] if r["stmts"] else "(before any statement)"
@@ -113,12 +120,15 @@ def one(ctx, case, pending):
         ctx.hist("failed_at", last)
         ctx.hist("early", bc.failed_early(r["stmts"]))
         if r["stmts"] and r["before"]["orig"] and r["before"]["orig"]["rows"]:
-            ctx.nontrivial((stmt_kinds(r["stmts"]), bc.canon_outcome(r["outcome"]), case["scope"], case["recreate"], case["copy_from"]))
+            ctx.nontrivial((stmt_kinds(r["stmts"]), bc.canon_outcome(r["outcome"]), case["scope"], case["recreate"], case["copy_from"],
+                            case.get("iso", "default"), case.get("tddl")))
     pending.append((case, r))
     return r
 
 
 SCOPES = ["none", "outer", "swallow"]
+ISOS = ["default", "autocommit", "begin"]     # pysqlite legacy / isolation_level="AUTOCOMMIT" / the BEGIN recipe
+TDDLS = [None, True]                          # transactional_ddl option of the MigrationContext
 
 _T = {"name": "t", "cols": [
     {"name": "id", "ty": "INTEGER", "aff": "Integer", "nullable": False, "default": None, "dval": None, "pk": True},
@@ -142,26 +152,28 @@ WITNESSES = {
 
 def run(ctx, n_cases=None, rng_name="main"):
     rng = ctx.rng(rng_name)
-    n = n_cases or (1200 if ctx.thorough else 250)
+    n = n_cases or (500 if ctx.thorough else 220)
     pending = []
     for i in range(n):
         t = bg.gen_table(rng, big=ctx.thorough and i % 5 == 0)
         ops = bg.gen_ops(rng, t)
         recreate = rng.choice(["always", "always", "always", "auto"])
         copy_from = rng.random() < 0.3
-        base = bc.new_case(t, ops, recreate, copy_from, None, rng.choice(SCOPES))
+        base = bc.new_case(t, ops, recreate, copy_from, None, rng.choice(SCOPES), rng.choice(ISOS), rng.choice(TDDLS))
         r0 = one(ctx, base, pending)
         nst = len(r0["stmts"])
         if r0["outcome"] != "ok" and nst:
-            # a natural failure: the same case under the other scopes as well
+            # a natural failure: the same case under every scope x connection mode (transactional_ddl alternating)
             for sc in SCOPES:
-                if sc != base["scope"]:
-                    one(ctx, bc.new_case(t, ops, recreate, copy_from, None, sc), pending)
+                for iso in ISOS:
+                    if (sc, iso) != (base["scope"], base["iso"]):
+                        one(ctx, bc.new_case(t, ops, recreate, copy_from, None, sc, iso, rng.choice(TDDLS)), pending)
         if r0["outcome"] == "ok" and nst:
             ks = list(range(nst)) if ctx.thorough else sorted(rng.sample(range(nst), min(nst, 3)))
             for k in ks:
                 for sc in (SCOPES if ctx.thorough else [rng.choice(SCOPES)]):
-                    one(ctx, bc.new_case(t, ops, recreate, copy_from, k, sc), pending)
+                    for iso in (ISOS if ctx.thorough else [rng.choice(ISOS)]):
+                        one(ctx, bc.new_case(t, ops, recreate, copy_from, k, sc, iso, rng.choice(TDDLS)), pending)
         if len(pending) >= 200:
             judge(ctx, pending)
     judge(ctx, pending)
@@ -198,7 +210,9 @@ def classify(failure):
     if kinds[-1] == "createTmpIndex" and "insert" not in kinds and "dropTmp" not in kinds:
         return "C11-F2"
     # C11-F1: the clean-up DROP ran (last statement) inside the implicit transaction the INSERT opened, and the scope rolled back
-    if kinds[-1] == "dropTmp" and "insert" in kinds and scope in ("none", "outer"):
+    # (only under pysqlite's legacy transaction control: with AUTOCOMMIT the clean-up sticks, with an explicit BEGIN
+    # the rollback also undoes the CREATE TABLE)
+    if kinds[-1] == "dropTmp" and "insert" in kinds and scope in ("none", "outer") and failure["input"].get("iso", "default") == "default":
         fault = failure["input"].get("fault")
         ins = kinds.index("insert")
         # an injected fault *at* the INSERT raises before the implicit BEGIN: the clean-up then autocommits (no finding there)
@@ -211,7 +225,7 @@ def classify(failure):
 def replay(ctx, case):
     inp = case["input"]
     c = bc.new_case(inp["table"], inp["ops"], inp.get("recreate", "always"), inp.get("copy_from", False), inp.get("fault"),
-                    inp.get("scope", "none"))
+                    inp.get("scope", "none"), inp.get("iso", "default"), inp.get("tddl"))
     r = bc.run_impl(c)
     m = ctx.drv.ask1(bc.model_op(c, r))
     out = {"impl": bc.brief(r), "model": {"stmts": m.get("stmts"), "outcome": m.get("outcome")}, "differences": bc.compare(c, r, m)}
